@@ -124,7 +124,8 @@ def worker(scratch):
                 clib.reb_simulation_step(ctypes.byref(sim))
                 p0, p1 = sim.particles[0], sim.particles[1]
                 a, b = getp(p0), getp(p1)
-                res = " ".join(d2h(b[i] - a[i]) for i in range(6)) + " " + d2h(sim.t)
+                mode = int(sim.ri_trace._current_C) if integ == "trace" else 0
+                res = " ".join(d2h(b[i] - a[i]) for i in range(6)) + " " + d2h(sim.t) + " %d" % mode
                 sim = None
             else:
                 res = "bad-op"
@@ -248,14 +249,17 @@ def gen_e(rng):
     return rng.uniform(1.0 + 1e-6, 50.0)
 
 
-def gen_orbit(rng, e=None, dt_over_P=None, phase=None):
+def gen_orbit(rng, e=None, dt_over_P=None, phase=None, M=None, a=None):
     """classical elements -> doubles (M, state, dt) + meta"""
     e = gen_e(rng) if e is None else e
     hyp = e > 1.0
-    a = 10 ** rng.uniform(-6, 6)
+    a = 10 ** rng.uniform(-6, 6) if a is None else a
     G = 10 ** rng.uniform(-10, 10)
     m = 10 ** rng.uniform(-10, 10)
-    M = G * m
+    if M is None:
+        M = G * m
+    else:
+        m = M / G
     if phase is None:
         phase = rng.choice(["peri", "peri", "apo", "f", "f", "f", "f", "nearperi", "Mean"])
     if hyp and phase == "apo":
@@ -290,13 +294,18 @@ def gen_orbit(rng, e=None, dt_over_P=None, phase=None):
         v = [-c for c in v]
     P = 2 * math.pi * math.sqrt(a ** 3 / M)
     if dt_over_P is None:
-        k = rng.randint(0, 9)
+        k = rng.randint(0, 10)
         if k == 0:
             dt_over_P = float(rng.randint(1, 30)) * rng.choice([1.0, 0.5])      # whole / half periods
         elif k <= 2:
             dt_over_P = 10 ** rng.uniform(-8, -2)
         elif k <= 6:
             dt_over_P = 10 ** rng.uniform(-2, 1)
+        elif k == 7:
+            dt_over_P = 10 ** rng.uniform(1.5, 3)                                # many periods
+        elif k == 8:
+            # just off k*2^j periods: where the quartic iteration cycles and the bisection fallback is taken
+            dt_over_P = 2 ** rng.randint(4, 9) * rng.choice([1, 1, 1.5, 1.75]) * (1 - rng.choice([1, -1]) * 10 ** rng.uniform(-4, -1.5))
         else:
             dt_over_P = 10 ** rng.uniform(-8, 3)
         dt_over_P *= rng.choice([1, -1])
@@ -390,6 +399,16 @@ def tolerance(o):
 
 # ============================================================================ the check
 def run(c):
+    try:
+        run_(c)
+    except (Infra, subprocess.TimeoutExpired):
+        raise
+    except Exception:               # a bug of this script is an infrastructure failure, never a VIOLATION
+        import traceback
+        raise Infra("unexpected exception in rv/c03.py:\n" + traceback.format_exc()[-3000:])
+
+
+def run_(c):
     d = build()
     real = Real(d)
     # ---------------------------------------------------------------- translator
@@ -521,6 +540,7 @@ def run(c):
     first = None
     nwarn = 0
     olines = []
+    pending = []
     for i, o in enumerate(cases):
         m = model[i]
         key = (o["path"], e_bin(o["meta"]["e"]), dt_bin(o["meta"]["dtP"]), o["meta"]["phase"])
@@ -551,18 +571,17 @@ def run(c):
             continue
         rt = ans.split()
         c.count(key)
-        if rt[:6] != m["res"] or (rt[6] == "W") != m["warn"]:
+        if (rt[6] == "W") != m["warn"]:
             ndis += 1
             if first is None:
-                first = {"input": mlines[i], "model": mout[i], "impl": ans, "meta": o["meta"]}
+                first = {"input": mlines[i], "model": mout[i], "impl": ans, "meta": o["meta"], "what": "timestep warning flag"}
+        elif rt[:6] != m["res"]:
+            pending.append(i)          # not bit-identical: judged against the conditioned rounding unit below
         nwarn += rt[6] == "W"
         o["real"] = rt[:6]
         olines.append("%d %s %s" % (i, mlines[i].split(None, 1)[1], " ".join(rt[:6])))
-    c.cov["solver_lines_compared_bitwise"] = len(rl)
-    c.cov["solver_disagreements"] = ndis
+    c.cov["solver_lines_compared"] = len(rl)
     c.cov["timestep_warning_raised"] = nwarn
-    if ndis:
-        c.corr_break("%d of %d solver calls differ between the Lean Float model and the compiled code" % (ndis, len(cases)), first)
     for i in range(min(3, len(cases))):
         c.sample({"M": cases[i]["M"], "state": cases[i]["st"], "dt": cases[i]["dt"], "meta": cases[i]["meta"],
                   "path": cases[i]["path"], "model_line": mout[i][:160]})
@@ -571,6 +590,37 @@ def run(c):
     c.log("reference propagation of %d orbits (mpmath, %d digits)" % (len(olines), 50))
     ref = run_oracle(olines)
     SAFETY = 64.0
+
+    def reldiff(a6, b6, ref6):
+        """max relative difference of position and of velocity (relative to the reference norms)"""
+        a, b, r = [h2d(x) for x in a6], [h2d(x) for x in b6], [h2d(x) for x in ref6]
+        out = 0.0
+        for k in (0, 3):
+            nr = math.hypot(*r[k:k + 3]) or 1.0
+            dd = math.hypot(*[a[k + q] - b[k + q] for q in range(3)])
+            out = max(out, dd / nr)
+        return out if (out == out and nr == nr) else float("inf")
+
+    # model/implementation pairs that are not bit-identical: C03 is a "to rounding error" property, so a
+    # re-association or a different (convergent) iteration path must not alarm, a wrong constant must
+    nwithin = 0
+    for i in pending:
+        j = ref.get(str(i))
+        okk = False
+        if j is not None and "error" not in j and j["kind"] != "line" and j.get("finite"):
+            dd = reldiff(cases[i]["real"], model[i]["res"], j["ref"])
+            okk = dd <= SAFETY * tolerance(j)
+        if okk:
+            nwithin += 1
+        else:
+            ndis += 1
+            if first is None:
+                first = {"input": mlines[i], "model": mout[i], "impl": " ".join(cases[i]["real"]), "meta": cases[i]["meta"]}
+    c.cov["solver_lines_bit_identical"] = len(rl) - len(pending)
+    c.cov["solver_lines_within_rounding_tolerance"] = nwithin
+    c.cov["solver_disagreements"] = ndis
+    if ndis:
+        c.corr_break("%d of %d solver calls differ between the Lean Float model and the compiled code" % (ndis, len(cases)), first)
     worst = {}
     ratios = []
     nfail = 0
@@ -629,6 +679,191 @@ def run(c):
     c.cov["worst_cases"] = worst
     c.cov["F14_domain_wrong_results"] = f14line
     c.cov["nonfinite_results"] = nonfinite
+
+    # ---------------------------------------------------------------- mass parameter: reb_whfast_kepler_step tie
+    nk = 400 if c.thorough else 80
+    klines, kmodel, kmeta = [], [], []
+    for i in range(nk):
+        rng = c.rng.fork()
+        coord = COORDS[i % 4]
+        n = rng.randint(1, 5)
+        G = 10 ** rng.uniform(-3, 3)
+        m0 = 10 ** rng.uniform(-3, 3)
+        ms = [m0 * 10 ** rng.uniform(-8, 0.3) if rng.chance(0.8) else 0.0 for _ in range(n)]
+        pj0m = (m0 + sum(ms)) * rng.choice([1.0, 1.0, rng.uniform(0.5, 2.0)])     # p_jh[0].m (total mass in real use)
+        nact1 = rng.randint(0, n)                                                # number of active ones among 1..n
+        nactive_field = -1 if (nact1 == n and rng.chance(0.5)) else nact1 + 1
+        # python mirror only to choose sensible orbits (the model computes its own)
+        eta, etas = m0, []
+        for k in range(n):
+            if coord == "jacobi":
+                if k < nact1:
+                    eta += ms[k]
+                etas.append(eta)
+            elif coord == "dh":
+                etas.append(m0)
+            elif coord == "whds":
+                etas.append(m0 + ms[k] if k < nact1 else m0)
+            else:
+                etas.append(pj0m)
+        dt = None
+        parts = []
+        for k in range(n):
+            o = gen_orbit(rng, e=rng.uniform(0, 0.9) if rng.chance(0.8) else rng.uniform(1.2, 3.0), M=etas[k] * G,
+                          a=10 ** rng.uniform(-1, 1), dt_over_P=rng.uniform(-1, 1) * (1.0 if k else rng.choice([1e-3, 0.1, 3.0])))
+            if dt is None:
+                dt = o["dt"]
+            parts.append([ms[k]] + o["st"])
+        flat = " ".join(d2h(v) for pp in parts for v in pp)
+        kmodel.append("kstep %s %s %s %s %d %s %s" % (coord, d2h(G), d2h(m0), d2h(pj0m), nact1, d2h(dt), flat))
+        klines.append("kstep %d %s %s %d %s %s %s %s" % (i, coord, d2h(G), nactive_field - 1 if nactive_field > 0 else -2, d2h(dt), d2h(m0), d2h(pj0m), flat))
+        kmeta.append((coord, n, nact1, nactive_field))
+    kmo = run_driver(exe, kmodel)
+    keep = [i for i in range(nk) if "hang" not in kmo[i]]
+    kro = real.run([klines[i] for i in keep])
+    kdis, kfirst, kwithin = 0, None, 0
+    khist = {}
+    for i in keep:
+        coord, n, nact1, naf = kmeta[i]
+        mparts = kmo[i].split(" | ")
+        mres = " ".join(mparts[1:])
+        ans = kro.get(str(i), "")
+        khist[coord] = khist.get(coord, 0) + 1
+        c.count(("kstep", coord, n, nact1, naf == -1))
+        if ans != mres:
+            a, b = ans.split(), mres.split()
+            good = len(a) == len(b) == 6 * n
+            if good:
+                for q in range(n):      # orbits here are well conditioned by construction (e<0.9 or 1.2<e<3, |dt|<3P)
+                    good = good and reldiff(a[6 * q:6 * q + 6], b[6 * q:6 * q + 6], b[6 * q:6 * q + 6]) <= 1e-9
+            if good:
+                kwithin += 1
+            else:
+                kdis += 1
+                if kfirst is None:
+                    kfirst = {"coordinates": coord, "n": n, "N_active": naf, "model_line": kmodel[i], "model": kmo[i], "impl": ans}
+    c.cov["kepler_step_calls_compared"] = {"total": len(keep), "per_coordinates": khist, "not_bit_identical_but_within_1e-9": kwithin, "disagreements": kdis}
+    if kdis:
+        c.corr_break("%d of %d reb_whfast_kepler_step calls differ from the model (mass parameter per coordinate system / solver)" % (kdis, len(keep)), kfirst)
+
+    # ---------------------------------------------------------------- tangent map tie
+    nv = 1500 if c.thorough else 250
+    vcases, vlines = [], []
+    for i in range(nv):
+        rng = c.rng.fork()
+        o = gen_orbit(rng)
+        sx = max(abs(v) for v in o["st"][:3]); sv = max(abs(v) for v in o["st"][3:]) or 1.0
+        kind = rng.randint(0, 2)
+        dst = [rng.normal() * sx * (kind != 1) for _ in range(3)] + [rng.normal() * sv * (kind != 2) for _ in range(3)]
+        o["dst"] = dst
+        vcases.append(o)
+        vlines.append("var " + " ".join(d2h(v) for v in [o["M"]] + o["st"] + [o["dt"]] + dst))
+    vmo = run_driver(exe, vlines)
+    vkeep = [i for i in range(nv) if not vmo[i].startswith("hang")]
+    vro = real.run(["var %d %s" % (i, vlines[i].split(None, 1)[1]) for i in vkeep])
+    vdis, vfirst, vpend = 0, None, []
+    for i in vkeep:
+        t = vmo[i].split()
+        ans = vro.get(str(i), "")
+        c.count(("var", t[12], t[14], t[15], t[17], e_bin(vcases[i]["meta"]["e"])))
+        if " ".join(t[:12]) != ans:
+            if len(ans.split()) == 12:
+                vpend.append(i)
+            else:
+                vdis += 1
+                if vfirst is None:
+                    vfirst = {"input": vlines[i], "model": vmo[i], "impl": ans, "meta": vcases[i]["meta"]}
+    vwithin = 0
+    if vpend:
+        vref = run_oracle(["%d %s %s" % (i, " ".join(vlines[i].split()[1:9]), " ".join(vro[str(i)].split()[:6])) for i in vpend])
+        for i in vpend:
+            j = vref.get(str(i))
+            a, b = vro[str(i)].split(), vmo[i].split()[:12]
+            good = j is not None and "error" not in j and j["kind"] != "line" and j.get("finite", False)
+            if good:
+                unit = SAFETY * tolerance(j)
+                good = reldiff(a[:6], b[:6], j["ref"]) <= unit and reldiff(a[6:], b[6:], b[6:]) <= 1e3 * unit
+            if good:
+                vwithin += 1
+            else:
+                vdis += 1
+                if vfirst is None:
+                    vfirst = {"input": vlines[i], "model": vmo[i], "impl": vro[str(i)], "meta": vcases[i]["meta"]}
+    c.cov["tangent_map_calls_compared"] = {"total": len(vkeep), "not_bit_identical_but_within_tolerance": vwithin, "disagreements": vdis}
+    if vdis:
+        c.corr_break("%d of %d solver calls with a variational particle differ from the model (stumpff_cs / stiefel_Gs / tangent map)" % (vdis, len(vkeep)), vfirst)
+
+    # ---------------------------------------------------------------- one full sim.step() per integrator
+    groups = [("whfast", "jacobi", "any"), ("whfast", "whds", "any"), ("saba", "-", "any"),
+              ("whfast", "dh", "test"), ("whfast", "bary", "test"), ("mercurius", "-", "test"), ("trace", "-", "test")]
+    per = 150 if c.thorough else 30
+    slines, sinfo = [], []
+    for integ, coord, mk in groups:
+        for rep in range(per):
+            rng = c.rng.fork()
+            while True:
+                o = gen_orbit(rng)
+                e = o["meta"]["e"]
+                if e > 1 and 2 * math.pi * abs(o["meta"]["dtP"]) / (e - 1) > 100.0:
+                    continue           # F14 domain is covered by the solver part
+                break
+            if integ == "trace":
+                o["dt"] = abs(o["dt"])          # TRACE with dt<0 is finding F10 (C01/C08)
+                o["meta"]["dtP"] = abs(o["meta"]["dtP"])
+            G, mt = o["G"], o["m"]
+            if mk == "test":
+                m1 = 0.0
+            else:
+                m1 = rng.choice([0.0, mt * 1e-12, mt * 1e-3, mt * rng.uniform(0.05, 0.5)])
+            m0 = mt - m1
+            sx = math.sqrt(sum(v * v for v in o["st"][:3])); sv = math.sqrt(sum(v * v for v in o["st"][3:]))
+            offk = 0.0 if rep % 2 == 0 else rng.uniform(0.1, 2.0)
+            off = [rng.normal() * sx * offk for _ in range(3)] + [rng.normal() * sv * offk for _ in range(3)]
+            k = len(slines)
+            slines.append("step %d %s %s %s" % (k, integ, coord, " ".join(d2h(v) for v in [G, m0, m1] + o["st"] + [o["dt"]] + off)))
+            sinfo.append((integ, coord, G * (m0 + m1), o, m1 / mt, offk))
+    c.log("one full step of %d two-body simulations (%d integrator configurations)" % (len(slines), len(groups)))
+    sro = real.run(slines)
+    sol = []
+    for k, (integ, coord, GM, o, mr, offk) in enumerate(sinfo):
+        ans = sro.get(str(k), "")
+        t = ans.split()
+        if len(t) >= 8 and t[0] not in ("exception",):
+            sol.append("%d %s %s" % (k, " ".join(d2h(v) for v in [GM] + o["st"] + [o["dt"]]), " ".join(t[:6])))
+    sref = run_oracle(sol)
+    sworst = {}
+    skipped_trace = 0
+    for k, (integ, coord, GM, o, mr, offk) in enumerate(sinfo):
+        name = integ + ("/" + coord if coord != "-" else "")
+        ans = sro.get(str(k), "")
+        t = ans.split()
+        rep = {"integrator": integ, "coordinates": coord, "G": o["G"], "m_total": o["m"], "m1_over_mtotal": mr, "state_rel": o["st"],
+               "dt": o["dt"], "meta": o["meta"], "offset_scale": offk, "answer": ans[:200]}
+        c.count(("step", name, e_bin(o["meta"]["e"]), dt_bin(o["meta"]["dtP"]), mr == 0))
+        if ans in ("HANG", "CRASH") or len(t) < 8 or t[0] == "exception":
+            c.violation("step-%s:%s" % (ans.split()[0].lower() if ans else "noanswer", name),
+                        "one %s step of a two-body system: %s (e=%.6g dt/P=%.4g)" % (name, ans[:80], o["meta"]["e"], o["meta"]["dtP"]), rep)
+            continue
+        if integ == "trace" and t[7] != "0":
+            skipped_trace += 1          # pericentre switch fired: not the Kepler solver (not "away from encounters")
+            continue
+        j = sref[str(k)]
+        if not j.get("finite", False):
+            c.violation("step-nonfinite:" + name, "one %s step returns NaN/inf" % name, rep)
+            continue
+        err = max(j["errx"], j["errv"])
+        unit = tolerance(j) * (1.0 + 2.0 * offk)
+        ratio = err / unit
+        w = sworst.get(name)
+        if w is None or ratio > w["ratio"]:
+            sworst[name] = {"ratio": ratio, "err": err, "e": j["e"], "ndt": j["ndt"]}
+        if err > unit * SAFETY * 4:
+            rep.update(err=err, allowed=unit * SAFETY * 4, reference=[h2d(x) for x in j["ref"]])
+            c.violation("step-inexact:" + name, "one %s step of a two-body system is off the exact Kepler orbit by %.3g relative (allowed %.3g), e=%.6g dt/P=%.4g"
+                        % (name, err, unit * SAFETY * 4, o["meta"]["e"], o["meta"]["dtP"]), rep)
+    c.cov["full_step"] = {"cases": len(slines), "worst_error_over_unit": sworst, "allowed": SAFETY * 4,
+                          "trace_cases_skipped_because_pericentre_switch_fired": skipped_trace,
+                          "not_covered": "WHFast512 (needs AVX512, not compiled here)"}
     c.cov["watchdog"] = {"hangs": real.hangs + real_h.hangs, "worker_restarts": real.restarts + real_h.restarts}
 
 
